@@ -873,7 +873,7 @@ impl Xot {
     /// # Ok::<(), xot::Error>(())
     /// ```
     pub fn parse_bytes(&mut self, bytes: &[u8]) -> Result<Node, ParseError> {
-        let xml = decode(bytes, None);
+        let xml = decode(bytes, None).ok_or(ParseError::UnsupportedEncoding)?;
         self.parse(&xml)
     }
 }
